@@ -83,6 +83,46 @@ def _adaptor(eng, st, args, dty, callee, m):
     raise SymError("adaptor " + k)
 
 
+@summary(r"^(core::str::<impl str>|str::<impl str>|std::string::String)::bytes$", "str::bytes for byte-level strings (short strings modelled byte by byte)")
+def _str_bytes(eng, st, args, dty, callee, m):
+    s = deref(eng, st, args[0])
+    if not isinstance(s, VStr) or s.bytes is None:
+        raise SymError("bytes() of an abstract string (only short byte-level strings support byte iteration)")
+    r = eng.alloc(st, s.bytes, "T")
+    return VIter("slice", src=r, pos=0, byval=True)
+
+
+@summary(r"^<.* as Iterator>::zip::<.*>$", "Iterator::zip")
+def _zip(eng, st, args, dty, callee, m):
+    a = _it(eng, st, args[0])
+    b = args[1]
+    if isinstance(b, VRef):
+        b = eng.load(st, b)
+    if not isinstance(b, VIter):
+        raise SymError("zip with a non-iterator")
+    return VIter("zip", a=a, b=b)
+
+
+@summary(r"^core::num::<impl u8>::(eq_ignore_ascii_case|to_ascii_lowercase|to_ascii_uppercase|is_ascii_uppercase|is_ascii_lowercase|is_ascii_hexdigit|is_ascii_digit|is_ascii_alphanumeric)$", "u8 ASCII helpers")
+def _u8_ascii(eng, st, args, dty, callee, m):
+    k = m.group(1)
+    x = deref(eng, st, args[0])
+    lower = lambda v: z3.If(z3.And(z3.UGE(v, bv(0x41, 8)), z3.ULE(v, bv(0x5A, 8))), v | bv(0x20, 8), v)  # noqa: E731
+    upper = lambda v: z3.If(z3.And(z3.UGE(v, bv(0x61, 8)), z3.ULE(v, bv(0x7A, 8))), v & bv(0xDF, 8), v)  # noqa: E731
+    if k == "eq_ignore_ascii_case":
+        y = deref(eng, st, args[1])
+        return simp(lower(x) == lower(y))
+    if k == "to_ascii_lowercase":
+        return simp(lower(x))
+    if k == "to_ascii_uppercase":
+        return simp(upper(x))
+    up = z3.And(z3.UGE(x, bv(0x41, 8)), z3.ULE(x, bv(0x5A, 8)))
+    lo = z3.And(z3.UGE(x, bv(0x61, 8)), z3.ULE(x, bv(0x7A, 8)))
+    dg = z3.And(z3.UGE(x, bv(0x30, 8)), z3.ULE(x, bv(0x39, 8)))
+    hx = z3.Or(dg, z3.And(z3.UGE(x | bv(0x20, 8), bv(0x61, 8)), z3.ULE(x | bv(0x20, 8), bv(0x66, 8))))
+    return simp({"is_ascii_uppercase": up, "is_ascii_lowercase": lo, "is_ascii_digit": dg, "is_ascii_hexdigit": hx, "is_ascii_alphanumeric": z3.Or(up, lo, dg)}[k])
+
+
 @summary(r"^core::slice::<impl \[.*\]>::windows$", "slice::windows(n), n concrete")
 def _windows(eng, st, args, dty, callee, m):
     v, r = _seq_of(eng, st, args[0])
@@ -211,6 +251,10 @@ def drain(eng, st, it):
         if p0 is None:
             raise SymError("drain of a conditional list at a symbolic position")
         return list(a["items"][p0:])
+    if k == "zip":
+        xa = drain(eng, st, a["a"])
+        xb = drain(eng, st, a["b"])
+        return [(simp(z3.And(ca, cb)), VStruct([va, vb])) for (ca, va), (cb, vb) in zip(xa, xb)]
     if k == "windows":
         v, r = _seq_of(eng, st, a["src"])
         ln = _len_of(v)
